@@ -24,6 +24,7 @@ RULE = ('Histories of 3-10 operations in one process over 2-3 generated block sp
         'the ID counter). Each solve is compared with the same spec solved alone in a fresh interpreter. Non-trivial: >= 2 '
         'different specs interleaved and at least one re-parse, logging or tracing operation before a compared solve. '
         'Distinct: sha1 of the history.')
+RULE = RULE + (' Input shapes added after the seeded-change rounds (DESIGN.md section 8): ' + 'unrelated Model() started in the middle of a construction; text-valued initial conditions under active logging; an iteration cap set on the solver object that later blocks run under.')
 ASSUMPTIONS = [
     'PYTHONHASHSEED is pinned for parent and reference interpreters (interpreter-level state is not varied)',
     'reference = one fresh interpreter per spec (cached per spec inside a worker)',
